@@ -358,4 +358,37 @@ mod verif_proto {
         hot_reloading_thread(source, events_rx, rx, answers.clone());
         std::mem::forget(tx);
     }
+
+    // a waiter woken by a notification that does not concern it (notify_all wakes every caller) must
+    // re-check its condition and go back to sleep, leaving the slot alone
+    // @h name=proto_woken_for_other_token tier=quick timeout=600 props=C08 role=caller+or+reloader+woken+by+a+notification+meant+for+somebody+else
+    #[kani::proof]
+    #[kani::unwind(4)]
+    fn proto_woken_for_other_token() {
+        let answers = Answers::default();
+        install(&answers);
+        let tok: usize = kani::any();
+        let slot: Option<usize> = kani::any();
+        kani::assume(slot.is_some() && slot != Some(tok));
+        unsafe { *answers.current_token.verif_data_ptr() = slot; EXPECT_SLOT = slot; WAITS = 0; COND = Some(&answers.condvar as *const Condvar); }
+        fn wake_once(e: Ev, _a: usize) {
+            assert!(e == Ev::CondWait);
+            unsafe {
+                WAITS += 1;
+                assert!(*SLOT.unwrap() == EXPECT_SLOT, "the slot changed while the waiter was parked");
+                if WAITS == 1 {
+                    // somebody else's notify_all: the waiter wakes up although nothing changed for it
+                    (*COND.unwrap()).notify_all();
+                    return;
+                }
+            }
+            kani::cover!(true, "@proto_woken_for_other_token: waiter went back to sleep after a foreign wake-up");
+            kani::assume(false);
+        }
+        parking_lot::set_block_hook(Some(wake_once));
+        if kani::any() { answers.wait_for_answer(tok); } else { answers.notify(tok); }
+        assert!(false, "a waiter woken by a notification meant for somebody else went ahead without re-checking its condition");
+    }
+    static mut WAITS: usize = 0;
+    static mut COND: Option<*const Condvar> = None;
 }
